@@ -42,6 +42,21 @@ void from_json(const json &j, Fault &f) {
 
 static World *g_world = nullptr;
 
+extern "C" {
+size_t verif_lock_size(void);
+void *verif_lock_addr(void);
+}
+static std::map<int, Bytes> g_lock_img;     // node -> its image of libcoap's global_lock
+static Bytes g_lock_pristine;
+void World::lock_switch(int from, int to) {
+  size_t n = verif_lock_size();
+  if (!n || from == to || g_lock_pristine.empty()) return;
+  uint8_t *p = (uint8_t *)verif_lock_addr();
+  g_lock_img[from].assign(p, p + n);
+  auto it = g_lock_img.find(to);
+  memcpy(p, it == g_lock_img.end() ? g_lock_pristine.data() : it->second.data(), n);
+}
+
 static int world_prng(void *buf, size_t len) {
   uint8_t *o = (uint8_t *)buf;
   for (size_t i = 0; i < len; i++) o[i] = (uint8_t)g_world->lib_rng.next();
@@ -143,6 +158,8 @@ void World::begin(uint64_t sched_salt, RunResult *r, bool keep_log, bool echo) {
     return SIZE_MAX;
   };
   coap_startup();
+  g_lock_img.clear();
+  if (verif_lock_size()) { uint8_t *lp = (uint8_t *)verif_lock_addr(); g_lock_pristine.assign(lp, lp + verif_lock_size()); }
   coap_set_log_handler(log_handler);
   coap_set_log_level(getenv("VERIF_LIBLOG") ? (coap_log_t)atoi(getenv("VERIF_LIBLOG")) : COAP_LOG_EMERG);   // debugging aid for replays (with VERIF_ECHO=1)
   coap_set_prng(world_prng);
@@ -279,6 +296,22 @@ bool World::loop(const std::function<bool()> &stop, uint64_t until_ns) {
 }
 
 bool World::run(uint64_t until_ns) { return loop(nullptr, until_ns); }
+
+bool World::advance_one(uint64_t limit_ns) {
+  if (!q.empty() && q.top().t <= limit_ns) {
+    Ev e = q.top();
+    q.pop();
+    if (e.t > now()) simk::K().now_ns = e.t;
+    events++;
+    e.fn();
+    return true;
+  }
+  if (limit_ns != UINT64_MAX) {
+    if (limit_ns > now()) simk::K().now_ns = limit_ns;
+    return true;
+  }
+  return false;
+}
 
 void World::block(int node, std::function<bool()> ready, int64_t timeout_ms) {
   count("probe.nested_wait");
